@@ -220,6 +220,15 @@ def corner_requests():
               "inputs": [_arr("x", [2], "list")]})
     R.append({"funcs": [_fn("f", ["y"], [["x", ["i"]]], ["i"]), dict(_single("g", ["s"], ["y"]), ret=[2, 2])],
               "inputs": [_arr("x", [2], "list")]})
+    # user-level lists: the producer's MapSpec is generated by pipefunc ('... -> a[unnamed_0, j]', '... -> v[n0]')
+    R.append({"funcs": [dict(_single("g", ["a"], []), ret=[2, 3], int=[2, 3]),
+                        _fn("h", ["r"], [["a", [None, "j"]]], ["j"]),
+                        _fn("e", ["w"], [["r", ["j"]], ["x", ["j"]]], ["j"])],
+              "inputs": [_arr("x", [3], "list")], "order": [2, 0, 1]})
+    R.append({"funcs": [dict(_single("g", ["v", "v2"], []), ret=[3], int=[3]),
+                        _fn("h", ["w"], [["v", ["n0"]], ["x", ["i"]]], ["i", "n0"]),
+                        _fn("e", ["p"], [["v2", [None]], ["x", ["i"]]], ["i"])],
+              "inputs": [_arr("x", [2], "list")], "order": [1, 2, 0]})
     for r in R:
         r.setdefault("internal", [])
         r.setdefault("storage", "dict")
@@ -373,7 +382,7 @@ def generate(rng, tier, mult):
                 continue
             if u < 0.25:
                 c = _plain_arrays(c, rng)
-            elif u < 0.60:
+            elif u < 0.80:
                 # user-level list: the '... -> v[...]' MapSpec of a consumed generator is left to pipefunc
                 a = mapgen.to_user_level(c, rng)
                 if a is not None:
